@@ -135,4 +135,96 @@ theorem orderingsAux_nodup : ∀ (k : Nat) (l : List Nat), l.length = k → l.No
       simp only [List.cons.injEq] at h
       exact hab h.1.symm
 
+/-- probability that the sampler removes the edges of `σ` from `g` in this order: the product of the step probabilities
+`J(g∖e)/J(g)/ω(g∖e)` (C06: each step selects `e` with exactly this probability) -/
+noncomputable def orderProb (omega : Mask → ℝ) (n : Nat) : Mask → List Nat → ℝ
+  | _, [] => 1
+  | g, e :: σ => Jval omega n (Mask.pop g e) / Jval omega n g / omega (Mask.pop g e) * orderProb omega n (Mask.pop g e) σ
+
+/-- **Sector probability (telescoping).** The probability of a removal order is its weight `Π 1/ω` times
+`J(what is left)/J(g)`; for a complete order of `g` (nothing left, `J(∅)=1`) it is `orderWeight/J(g)`. -/
+theorem orderProb_eq (omega : Mask → ℝ) (n : Nat) (hJ : ∀ h, h < 2 ^ n → Jval omega n h ≠ 0) :
+    ∀ (σ : List Nat) (g : Mask), g < 2 ^ n → (∀ e ∈ σ, e < n) →
+      orderProb omega n g σ = orderWeight omega g σ * Jval omega n (σ.foldl Mask.pop g) / Jval omega n g := by
+  intro σ
+  induction σ with
+  | nil => intro g hg _; simp [orderProb, orderWeight, hJ g hg]
+  | cons e σ ih =>
+    intro g hg hσ
+    have hlt : Mask.pop g e < 2 ^ n := Mask.pop_lt hg (hσ e List.mem_cons_self)
+    simp only [orderProb, orderWeight, List.foldl_cons]
+    rw [ih (Mask.pop g e) hlt (fun f hf => hσ f (List.mem_cons_of_mem _ hf))]
+    have h1 := hJ (Mask.pop g e) hlt
+    have h2 := hJ g hg
+    field_simp
+
+/-- removing a duplicate-free list of present edges leaves exactly the other edges -/
+theorem edges_foldl_pop (n : Nat) : ∀ (σ : List Nat) (g : Mask), σ.Nodup → (∀ e ∈ σ, e ∈ Mask.edges n g) →
+    Mask.edges n (σ.foldl Mask.pop g) = (Mask.edges n g).filter (fun f => decide (f ∉ σ)) := by
+  intro σ
+  induction σ with
+  | nil => intro g _ _; simp
+  | cons e σ ih =>
+    intro g hnd hmem
+    rw [List.nodup_cons] at hnd
+    have he : e ∈ Mask.edges n g := hmem e List.mem_cons_self
+    have hpop := Mask.edges_pop n g e (Mask.mem_edges.mp he).2
+    rw [List.foldl_cons, ih (Mask.pop g e) hnd.2, hpop, List.filter_filter]
+    · apply List.filter_congr
+      intro f _
+      by_cases hfe : f = e
+      · subst hfe; simp
+      · simp [hfe]
+    · intro f hf
+      rw [hpop]
+      refine List.mem_filter.mpr ⟨hmem f (List.mem_cons_of_mem _ hf), ?_⟩
+      have : f ≠ e := fun h => hnd.1 (h ▸ hf)
+      simpa using this
+
+theorem foldl_pop_lt (n : Nat) : ∀ (σ : List Nat) (g : Mask), g < 2 ^ n → (∀ e ∈ σ, e < n) → σ.foldl Mask.pop g < 2 ^ n := by
+  intro σ
+  induction σ with
+  | nil => intro g hg _; simpa
+  | cons e σ ih =>
+    intro g hg h
+    rw [List.foldl_cons]
+    exact ih _ (Mask.pop_lt hg (h e List.mem_cons_self)) (fun f hf => h f (List.mem_cons_of_mem _ hf))
+
+/-- a complete removal order exhausts the subgraph -/
+theorem complete_order_exhausts (n : Nat) (g : Mask) (hg : g < 2 ^ n) (σ : List Nat)
+    (hσ : σ ∈ orderingsAux (card n g) (Mask.edges n g)) : σ.foldl Mask.pop g = 0 := by
+  have hperm := orderingsAux_perm (card n g) (Mask.edges n g) σ rfl hσ
+  have hnd : σ.Nodup := (hperm.nodup_iff).mpr (Mask.edges_nodup n g)
+  have hmem : ∀ e ∈ σ, e ∈ Mask.edges n g := fun e he => hperm.mem_iff.mp he
+  have hedges := edges_foldl_pop n σ g hnd hmem
+  have hnil : Mask.edges n (σ.foldl Mask.pop g) = [] := by
+    rw [hedges, List.filter_eq_nil_iff]
+    intro f hf
+    simpa using hperm.mem_iff.mpr hf
+  have hlt := foldl_pop_lt n σ g hg (fun e he => (Mask.mem_edges.mp (hmem e he)).1)
+  apply Classical.byContradiction
+  intro h0
+  exact Mask.edges_ne_nil hlt h0 hnil
+
+/-- **The sector probabilities of all `k!` complete removal orders sum to one.** -/
+theorem orderProb_sum_one (omega : Mask → ℝ) (n : Nat) (hJ : ∀ h, h < 2 ^ n → Jval omega n h ≠ 0)
+    (g : Mask) (hg : g < 2 ^ n) :
+    ((orderingsAux (card n g) (Mask.edges n g)).map (orderProb omega n g)).sum = 1 := by
+  have hsum := J_eq_sum_orderings omega n (card n g) g hg rfl
+  have : (orderingsAux (card n g) (Mask.edges n g)).map (orderProb omega n g)
+      = (orderingsAux (card n g) (Mask.edges n g)).map (fun σ => orderWeight omega g σ / Jval omega n g) := by
+    apply List.map_congr_left
+    intro σ hσ
+    have hlt : ∀ e ∈ σ, e < n := fun e he =>
+      (Mask.mem_edges.mp ((orderingsAux_perm (card n g) (Mask.edges n g) σ rfl hσ).mem_iff.mp he)).1
+    rw [orderProb_eq omega n hJ σ g hg hlt, complete_order_exhausts n g hg σ hσ, J_empty, one_real, mul_one]
+  rw [this]
+  have hdiv : ∀ l : List (List Nat), (l.map (fun σ => orderWeight omega g σ / Jval omega n g)).sum
+      = (l.map (orderWeight omega g)).sum / Jval omega n g := by
+    intro l
+    induction l with
+    | nil => simp
+    | cons a as ih => simp [ih, add_div]
+  rw [hdiv, ← hsum, div_self (hJ g hg)]
+
 end Momtrop.C04
